@@ -35,5 +35,7 @@ static inline int ref_ci(const unsigned char *b, size_t avail, u128 *v, size_t *
     }
     return 0;
 }
+/* fill a buffer with arbitrary bytes; own loop id (fill_nondet.0) so that harnesses can bound it separately */
+static inline void fill_nondet(char *p, size_t n) { for(size_t k = 0; k < n; k++) p[k] = nondet_char(); }
 static inline int ref_dsize(u128 t) { return t == 0 ? 20 : t == 1 ? 32 : t == 2 ? 64 : t == 3 ? 16 : -1; }
 #endif
